@@ -74,4 +74,11 @@ func init() {
 		Real:        append([]string{"ext/std/test: describe/test/it/should natives, Suite.Run, Case.Run, filters, RunWith"}, realAll...),
 		Stub:        append([]string{"the reporter (recording implementation of the Reporter interface)", "cmd/elk flag parsing and os.Exit (the exit status expression is evaluated by the harness)"}, stubAll...),
 	}
+	engineTable["C01"] = engineInfo{
+		Engine:      "C01",
+		Rule:        "slice of the property: programs whose crash-freedom depends on a coincidence the simulator controls. case = program (45%: one of ten chaos templates - a generator shared by two threads, a closure over live locals handed to a go thread, a channel closed under its producers and consumers, WaitGroup driven below zero, Promise.wait over resolved, slow and rejected promises, deep closure recursion in three threads, locks unlocked by other threads and unlocked twice, errors thrown in native map callbacks inside async tasks inside go threads, timeouts and sleeps, select over channels being closed; 55%: programs of the promise-DAG, sync, body-variant and sizing generators) x hostile configuration (initial value stack 64-300 slots, call stack 64-200 frames, pool 1-3, queue 1-256) x optional cancellation of the main context at a log-uniform tick x 0-3 clock jumps of 1 ms - 1 h x one schedule incl. starvation. Oracle: no task ends in a Go panic and the worker process survives; stack-limit reports are excepted; deadlocks, step limits and Elk errors are not crashes. Non-trivial: >= 2 tasks; distinct: hash of (program, configuration, faults, schedule trace)",
+		Assumptions: append([]string{"sequential programs are not claimed here (input generation, not simulation); crashes of the other engines' workloads are reported by those engines under their own property"}, commonAssumptions...),
+		Real:        realAll,
+		Stub:        stubAll,
+	}
 }
